@@ -4,10 +4,56 @@ sys.path.insert(0, os.path.dirname(__file__))
 from _common import main, b2j, j2b
 import vbs_common as V
 
-BOUND = 'files of 30, 70 and 25 KiB; single-record files of every length 1..6000 (quick: 1..40, every length within +-6 of k*1012-4 and k*1012, step 37 otherwise; thorough: all), blocked and unblocked; multi-record lists sweeping block offsets; 0x00/0x40 runs; class API, write_many and list/bytes functions'
+BOUND = 'configured maximum length changed between reads; helpers without the blocked argument on data that looks blocked; files of 30, 70 and 25 KiB; single-record files of every length 1..6000 (quick: 1..40, every length within +-6 of k*1012-4 and k*1012, step 37 otherwise; thorough: all), blocked and unblocked; multi-record lists sweeping block offsets; 0x00/0x40 runs; class API, write_many and list/bytes functions'
+
+
+def maxlen_history(inp):
+    """the configured maximum record length is read when a record is read, not remembered from an earlier read"""
+    from cardutil.config import config
+    from cardutil.mciipm import VbsReader, vbs_list_to_bytes, MciIpmDataError
+    import io
+    old = config.get('MAX_VBS_RECORD_LENGTH', None)
+    try:
+        for limit, n in inp['steps']:
+            if limit is None:
+                config.pop('MAX_VBS_RECORD_LENGTH', None)
+            else:
+                config['MAX_VBS_RECORD_LENGTH'] = limit
+            eff = limit or 6000
+            data = V.ref_frame([V.rec_bytes(n, 3)])
+            if inp['blocked']:
+                data = V.ref_block(data)
+            got, end, exc = V.read_all(VbsReader(io.BytesIO(data), blocked=inp['blocked']))
+            if n <= eff and (end != 'end' or got != [V.rec_bytes(n, 3)]):
+                return 'maxlen-history: record of %d bytes under a configured maximum of %d not read back (%s) after steps %s' % (n, eff, end, inp['steps'])
+            if n > eff and end != 'error':
+                return 'maxlen-history: record of %d bytes above the configured maximum of %d was delivered after steps %s' % (n, eff, inp['steps'])
+    finally:
+        if old is None:
+            config.pop('MAX_VBS_RECORD_LENGTH', None)
+        else:
+            config['MAX_VBS_RECORD_LENGTH'] = old
+    return None
+
+
+def helper_default(inp):
+    """vbs_bytes_to_list / vbs_list_to_bytes called without the optional `blocked` argument mean unblocked, whatever the data looks like"""
+    from cardutil.mciipm import vbs_list_to_bytes, vbs_bytes_to_list
+    recs = [bytes([fill]) * n if fill is not None else V.rec_bytes(n, i) for i, (n, fill) in enumerate(inp['recs'])]
+    data = vbs_list_to_bytes(recs)
+    if data != V.ref_frame(recs):
+        return 'helper-default: vbs_list_to_bytes(records) is not the unblocked VBS stream'
+    back = vbs_bytes_to_list(data)
+    if back != recs:
+        return 'helper-default: vbs_bytes_to_list(vbs_list_to_bytes(records)) returned %d records, wrote %d (lens %s)' % (len(back), len(recs), [len(r) for r in recs][:5])
+    return None
 
 
 def oracle(inp):
+    if inp.get('kind') == 'maxlen-history':
+        return maxlen_history(inp)
+    if inp.get('kind') == 'helper-default':
+        return helper_default(inp)
     if inp.get('kind') == 'rt':
         recs = [V.rec_bytes(n, i) if fill is None else bytes([fill]) * n for i, (n, fill) in enumerate(inp['recs'])]
         return V.oracle_roundtrip(recs, inp['blocked'], inp.get('api', 'class'))
@@ -15,6 +61,12 @@ def oracle(inp):
 
 
 def cases(tier, rng):
+    for blocked in (False, True):
+        yield {'kind': 'maxlen-history', 'blocked': blocked, 'steps': [[100, 50], [100, 101], [None, 101], [None, 6000], [None, 6001]]}
+        yield {'kind': 'maxlen-history', 'blocked': blocked, 'steps': [[None, 500], [200, 201], [200, 200], [7000, 6500], [None, 6500]]}
+    # data that looks blocked (0x40 0x40 where block trailers would be) through the helpers without `blocked=`
+    for recs in ([[3000, 0x40]], [[6000, 0x40], [1, 0x40], [2020, 0x40]], [[1006, 0x40]], [[1008, None], [1006, 0x40], [5, None]], [[5, None]], []):
+        yield {'kind': 'helper-default', 'recs': recs}
     near = set()
     for k in range(1, 7):
         for d in range(-6, 7):
